@@ -218,6 +218,34 @@ func zzScripted(fails map[string]string) int {
 	return evals
 }
 
+// boundary capacities: the node capacity is a uint8, so 254 and 255 are where arithmetic on it can
+// wrap; 700 ascending inserts overflow a node several times at those fan-outs (and at 127/128,
+// the signed boundary); compared on a fixed probe set after the inserts around each overflow
+func zzBoundaryFanouts(fails map[string]string) int {
+	evals := 0
+	for _, m := range []uint8{127, 128, 253, 254, 255} {
+		func() {
+			defer func() {
+				if rec := recover(); rec != nil {
+					fails[fmt.Sprintf("boundary-fanout-%d-panic", m)] = fmt.Sprint(rec)
+				}
+			}()
+			tr := zzNewTree(m)
+			model := zzModel{"": 0}
+			key := func(i int) []byte { return []byte(fmt.Sprintf("k%04d", i)) }
+			probes := [][]byte{{}, []byte("a"), key(0), key(1), key(126), key(127), key(128), key(129), key(253), key(254), key(255), key(256), key(257), key(400), key(511), key(512), key(699), []byte("k0255x"), []byte("z")}
+			for i := 0; i < 700; i++ {
+				tr.Set(key(i), osmomath.NewInt(int64(i+1)))
+				model[string(key(i))] = int64(i + 1)
+				if i%64 == 0 || (i >= int(m)-3 && i <= int(m)+3) || (i >= 2*int(m)-3 && i <= 2*int(m)+3) || i == 699 {
+					evals += zzCompare(tr, model, probes, fmt.Sprintf("boundary fan-out %d: after %d ascending inserts", m, i+1), fails)
+				}
+			}
+		}()
+	}
+	return evals
+}
+
 // canaries for recorded findings: must keep failing until the tree's removal path is repaired
 func zzKnown(fails map[string]string) {
 	probe := func(id string, m uint8, script func(tr sumtree.Tree, model zzModel), keys [][]byte) {
@@ -280,6 +308,7 @@ func TestZZStandinSumtree(t *testing.T) {
 		}
 	}
 	evals += zzScripted(fails)
+	evals += zzBoundaryFanouts(fails)
 	zzKnown(fails)
 	ids := make([]string, 0, len(fails))
 	for id := range fails {
@@ -289,5 +318,5 @@ func TestZZStandinSumtree(t *testing.T) {
 	for _, id := range ids {
 		fmt.Printf("FAIL %s %s\n", id, fails[id])
 	}
-	fmt.Printf("STANDIN evaluations=%d distinct=%d failures=%d rule=%d pseudo-random operation sequences (fixed seeds) of %d operations each over sub-alphabets of %d byte-string keys (empty key, shared prefixes, 0x00/0xff bytes): update-only (Set/Increase/Decrease) for fan-outs 2,3,4,5,8,32 and with Remove (never of the empty key, the sentinel NewTree creates) for fan-outs 5,8,10,32, plus a scripted sibling merge at fan-out 10; after every operation Get, SplitAcc, PrefixSum, SubsetAccumulation (all ordered pairs and nil bounds), TotalAccumulatedValue and ordered iteration are compared with a sorted map; one recorded finding is replayed as a canary\n", evals, nseq, len(fails), nseq, opsPer, len(zzAlphabet))
+	fmt.Printf("STANDIN evaluations=%d distinct=%d failures=%d rule=%d pseudo-random operation sequences (fixed seeds) of %d operations each over sub-alphabets of %d byte-string keys (empty key, shared prefixes, 0x00/0xff bytes): update-only (Set/Increase/Decrease) for fan-outs 2,3,4,5,8,32 and with Remove (never of the empty key, the sentinel NewTree creates) for fan-outs 5,8,10,32, plus a scripted sibling merge at fan-out 10 and 700 ascending inserts at the capacity boundaries 127,128,253,254,255 (compared on 19 probe keys around each node overflow); after every operation Get, SplitAcc, PrefixSum, SubsetAccumulation (all ordered pairs and nil bounds), TotalAccumulatedValue and ordered iteration are compared with a sorted map; one recorded finding is replayed as a canary\n", evals, nseq, len(fails), nseq, opsPer, len(zzAlphabet))
 }
